@@ -9,6 +9,7 @@ from ..ref import bits, isa
 from ..ref import commb as rc
 
 LEVEL = "exploration"
+BRANCH_TARGETS = ['pyModeS.decoder.bds:infer', 'pyModeS.decoder.bds:is50or60', 'pyModeS.decoder.bds.bds10:is10', 'pyModeS.decoder.bds.bds17:is17', 'pyModeS.decoder.bds.bds20:is20', 'pyModeS.decoder.bds.bds30:is30', 'pyModeS.decoder.bds.bds40:is40', 'pyModeS.decoder.bds.bds44:is44', 'pyModeS.decoder.bds.bds45:is45', 'pyModeS.decoder.bds.bds50:is50', 'pyModeS.decoder.bds.bds60:is60', 'pyModeS.py_common:wrongstatus']
 TECHNIQUE = 'runtime monitoring: relation monitor (infer vs isXX), forward register builders for completeness, one-rule-violation builders for soundness, independent recomputation of is50or60'
 LEVEL_TEXT = 'Exploration; out-of-envelope contents are deliberately not judged, thresholds are judged at their boundary values; 2^56 payloads sampled with boundary direction.'
 LEVEL_RULE = (
